@@ -10,11 +10,11 @@ Open Scope N_scope.
 Inductive node := File (d : str) (m : N) | Dir.
 Definition fs := list (str * node).
 
-Inductive errno := ENOSPC | EACCES | EIO | EINTR | EROFS | ENOENT | ENOTDIR | EOTHER.
-(* Python maps EACCES (and EPERM) to PermissionError; everything else here is a plain OSError/Exception *)
-Definition is_perm (e : errno) : bool := match e with EACCES => true | _ => false end.
+Inductive errno := ENOSPC | EACCES | EPERM | EIO | EINTR | EROFS | ENOENT | ENOTDIR | EOTHER.
+(* Python maps EACCES and EPERM to PermissionError; everything else here is a plain OSError/Exception *)
+Definition is_perm (e : errno) : bool := match e with EACCES | EPERM => true | _ => false end.
 Definition errno_code (e : errno) : N :=
-  match e with ENOSPC => 28 | EACCES => 13 | EIO => 5 | EINTR => 4 | EROFS => 30 | ENOENT => 2 | ENOTDIR => 20 | EOTHER => 0 end.
+  match e with ENOSPC => 28 | EACCES => 13 | EPERM => 1 | EIO => 5 | EINTR => 4 | EROFS => 30 | ENOENT => 2 | ENOTDIR => 20 | EOTHER => 0 end.
 
 Fixpoint lookup (p : str) (s : fs) : option node :=
   match s with
